@@ -117,3 +117,9 @@ CLAIMS['C20'] = dict(technique=GOCV + "; family contracts instantiated on federa
        "in resolveEntityGroup every spawned closure writes at most one slot, list[rep.index] of its own representation, only when its resolver succeeded, and reports at most one error otherwise, one goroutine and one Done per representation; "
        "resolveManyEntities zips positionally over a typedReps slice proved to have exactly len(reps) entries; resolveEntity/resolveManyEntities let no panic escape (they run on goroutines); a resolver name is returned only if not all key fields were null." + PROBE,
   note=COMMON_NOTE + "No thread model: schedule independence follows only from the proved index-disjointness. Fieldset parsing and other schemas not decided.")
+
+CLAIMS['C11'] = dict(technique=GOCV,
+  text="Narrow: the protocol is a concurrent state machine and its all-interleavings quantifier is not decidable here. Decided sequential facts on the real websocket code: wsConnection.init returns true only after the FIRST message was connection_init, the init function accepted it and the ack was written, and never touches the executor; "
+       "Websocket.Do enters the message loop only after init returned true; close() is idempotent (second call: no frame, no cancel, no callback; first call: exactly one close frame and one socket close, callback at most once) with the mutex held around the frame write and balanced on every path; "
+       "write() sends only while holding the mutex; run() hands the close watcher the context derived for (and cancelled with) the loop and reaches subscribe only from a start message; the subscription goroutine dispatches only after CreateOperationContext succeeded, drains the handler, and cannot die from a panic.",
+  note=COMMON_NOTE + "gorilla/websocket, message exchangers and user callbacks trusted; channel operations are not modelled; ordering across goroutines, stop/complete races and 'at most one completion per id' are NOT decided.")
